@@ -107,6 +107,32 @@ theorem fetchLoop_contig (chain : Chain) : ∀ (n i : Nat) (sets : List GSet), f
         have := ih (i + 1) rest hr
         exact ⟨⟨rfl, this.1⟩, by simp [this.2]⟩
 
+/-- Every element of a successful fetch is the chain's answer for its own index. -/
+theorem fetchLoop_getElem (chain : Chain) : ∀ (n i : Nat) (sets : List GSet), fetchLoop chain n i = some sets →
+    ∀ j (hj : j < sets.length), sets[j].index = i + j ∧ chain (i + j) = some sets[j].keys := by
+  intro n
+  induction n with
+  | zero => intro i sets h j hj; simp [fetchLoop] at h; subst h; simp at hj
+  | succ n ih =>
+    intro i sets h j hj
+    unfold fetchLoop at h
+    cases hc : chain i with
+    | none => simp [hc] at h
+    | some keys =>
+      simp only [hc] at h
+      cases hr : fetchLoop chain n (i + 1) with
+      | none => simp [hr] at h
+      | some rest =>
+        simp only [hr, Option.some.injEq] at h
+        subst h
+        cases j with
+        | zero => simpa using hc
+        | succ j =>
+          have := ih (i + 1) rest hr j (by simpa using hj)
+          simp only [List.getElem_cons_succ]
+          have e : i + 1 + j = i + (j + 1) := by omega
+          rw [e] at this; exact this
+
 theorem contig_bound {a : Nat} {l : List GSet} (h : Contig a l) (hb : a + l.length ≤ two32) : ∀ x ∈ l, x.index < two32 := by
   intro x hx
   obtain ⟨i, hi, rfl⟩ := List.getElem_of_mem hx
@@ -163,6 +189,31 @@ theorem plan_inv {cur : Int} {list sets : List GSet} {a : Nat} (hinv : Inv cur l
       refine ⟨⟨?_, contig_append hinv.idx hd, by simp [hne], ?_⟩, hgt⟩
       · simp only [List.length_append, List.length_drop]; omega
       · simp only [List.length_append, List.length_drop]; omega
+
+/-- A batch that starts exactly at `current+1` (a lookup nobody overtook) is appended whole. -/
+theorem plan_fresh {cur : Int} {list sets : List GSet} (hinv : Inv cur list) (hc : Contig (u32 (cur + 1)) sets) (hne : sets ≠ [])
+    (hlt : cur + 1 < (two32 : Int)) : ∃ nc, plan cur sets = some (nc, sets) := by
+  have hlen := hinv.len
+  have hpos : 0 < list.length := List.length_pos_iff.mpr hinv.ne
+  have hcur0 : 0 ≤ cur := by omega
+  have hu := u32_of_nonneg hcur0 (by omega : cur < (two32 : Int))
+  have hu1 := u32_of_nonneg (by omega : 0 ≤ cur + 1) hlt
+  unfold plan
+  cases hl : sets.getLast? with
+  | none => exact absurd (List.getLast?_eq_none_iff.mp hl) hne
+  | some last =>
+    have hlast := contig_getLast hc hl
+    have hspos : 0 < sets.length := List.length_pos_iff.mpr hne
+    have hle : ¬ last.index ≤ u32 cur := by omega
+    have htarget : (u32 cur + 1) % two32 = u32 (cur + 1) := by
+      have : u32 cur + 1 = u32 (cur + 1) := by omega
+      rw [this]; exact Nat.mod_eq_of_lt (u32_lt _)
+    have hst : startIndex sets ((u32 cur + 1) % two32) = 0 := by
+      unfold startIndex
+      rw [htarget, findFirst_contig hc (u32 (cur + 1)) (Nat.le_refl _) (by omega)]
+      simp
+    simp only [hle, if_false, hst, List.drop_zero]
+    exact ⟨_, rfl⟩
 
 /-- With the invariant, position `i ≤ current` of the list holds the set with index `i`. -/
 theorem inv_listAt {cur : Int} {list : List GSet} (hinv : Inv cur list) {i : Int} (h0 : 0 ≤ i) (h1 : i ≤ cur) :
